@@ -607,6 +607,9 @@ func (c *genctx) injectOffence(plans []*reqPlan, sc *scenario) {
 	case "body-too-large":
 		sc.cfg.maxBody = 1500
 		p.body = [][]byte{r.bytes(1000), r.bytes(1000)}
+		if r.chance(30) {
+			p.body = append(p.body, r.bytes(1000), r.bytes(700))
+		}
 		var fs [][2]string
 		for _, kv := range p.fields {
 			if kv[0] != "content-length" {
@@ -614,6 +617,14 @@ func (c *genctx) injectOffence(plans []*reqPlan, sc *scenario) {
 			}
 		}
 		p.fields = fs
+		// the limit is on what arrives, whatever length is declared: none, the true one, zero, too small, too large
+		total := 0
+		for _, ch := range p.body {
+			total += len(ch)
+		}
+		if cl := []string{"", fmt.Sprint(total), "0", "5", "1500", "100000"}[r.intn(6)]; cl != "" {
+			p.fields = append(p.fields, [2]string{"content-length", cl})
+		}
 	case "header-list-too-large":
 		sc.cfg.maxHeaderList = 400
 		for i := 0; i < 6; i++ {
@@ -1251,6 +1262,26 @@ func (c *genctx) genIdleTimeout() *scenario {
 	return sc
 }
 
+// genManyHandlers: more handlers are still running than the handlerDone channel has slots (128) when the peer
+// goes away; they are let go afterwards and every one of their goroutines has to come back.
+func (c *genctx) genManyHandlers() *scenario {
+	r := c.r
+	sc := &scenario{cfg: srvCfg{maxStreams: 1000, maxHeaderList: 1 << 20, maxBody: 4 << 20}}
+	n := 131 + r.intn(30)
+	sid := uint32(1)
+	for i := 0; i < n; i++ {
+		f := newFrame('H', 5, sid)
+		f.payload = []byte{0x82, 0x84, 0x87}
+		sc.evs = append(sc.evs, frameEv(f))
+		if r.chance(5) {
+			sc.evs = append(sc.evs, event{kind: 'D', sid: sid, resp: respSpec{status: 204, size: -1}})
+		}
+		sid += 2
+	}
+	sc.evs = append(sc.evs, event{kind: 'E'})
+	return sc
+}
+
 // sweepPlans, when set, replaces the random offence of genServerScenario: the scenario has sweepN requests and
 // the function edits their header lists.
 var sweepPlans func(plans []*reqPlan)
@@ -1308,6 +1339,9 @@ func genServer(c *genctx) {
 		case i%128 == 17:
 			sc = c.genValidationSweep((i / 128) % 3)
 			kind = "validation-sweep"
+		case i%400 == 231:
+			sc = c.genManyHandlers()
+			kind = "many-handlers-at-disconnect"
 		case i%50 == 7:
 			sc = c.genManyStreams()
 			kind = "many-streams"
@@ -1332,7 +1366,7 @@ func genServer(c *genctx) {
 		case i%64 == 46:
 			sc = c.genIdleTimeout()
 			kind = "idle-timer"
-		case i%4 == 1:
+		case i%4 == 1, i%8 == 6:
 			sc = c.genServerScenario(true)
 			kind = "offence-message"
 		case i%4 == 3:
